@@ -10,6 +10,20 @@ SOLO_TECH = ("TLA+ single-handler adversarial model (Solo.tla over the SrcCore /
              "TLC invariant of every input sequence up to the depth bound; TLC-enumerated sequences replayed into the real "
              "handler; recorded executions validated against the transducers and judged by the same TLA+ monitor")
 CLAIMED = {
+    "C09": dict(
+        text="Checksum.tla defines CRC-32 (ISO-HDLC) and CRC-32C bit-serially from their polynomials (16-bit limbs; catalogue check "
+             "values asserted), the CCSDS modular word sum and the null checksum, sharing nothing with crcmod. TLC checks on the "
+             "state machine of the chunked calculation that the final register equals the one-shot checksum of the prefix for "
+             "every content over a 3-symbol alphabet, every prefix length and every positive chunk length (chunk independence). "
+             "Every point of that model is run through the real NativeFilestore, plus seeded random byte strings (0-255, lengths "
+             "0-64, all prefix classes, chunk 1..len+1 and 4096, all four types); TLC recomputes each digest and judges "
+             "calculate_checksum, chunk independence and verify_checksum (accepts the value, rejects a flipped one). The EOF "
+             "checksum of the source handler is judged by the C09 monitor on runs where the file grows while it is sent.",
+        ref="DESIGN.md section 6 C09",
+        tech="TLA+ first-principles checksum definitions + chunking state machine checked by TLC; every model point and random vectors "
+             "executed on the real filestore and judged by TLC (ChecksumTrace.tla); EOF checksum monitor over recorded source runs",
+        note="Trusted: TLC's integer / Bitwise operators. Exhaustive only for the 3-symbol alphabet up to length 4 (quick) / 5 (thorough); "
+             "full bytes are seeded sampling. Modular checksum judged for prefix = whole file (observation F17)."),
     "C11": dict(
         text="TLC checks on the closed model with several put requests on the same handler records that, whatever drop / duplicate "
              "faults and cancel requests by either user hit the earlier transactions, a later transaction the environment leaves "
